@@ -12,873 +12,806 @@ Definition show_fres (r : fres) : string :=
   end.
 Definition check (rs : list rune) : string := digest (show_fres (format_res rs)).
 Definition full (rs : list rune) : string := show_fres (format_res rs).
-Eval vm_compute in ("<<<M41>>>" ++ check (runes_of_ascii "  root packet u{ match crc as
-leftPad { [ 00 ] : //
-o,  42
-    /// triple
-    :
-// trailing space 
-//x
-crc [
-""a	b"" ,
-""CRC32"" , ""a\""b"" , ""\n""
-, 0
-, 255 ] : // packet A { u8 x, }
-zchar ,
-// " ++ [128512]%N ++ runes_of_ascii " emoji
-//
-} //	t
-,	string stringy
-    @lengthOf(matchKey ),
-    int ,@tag(
-1)repeat	zchar[ 4294967296] roots , @leftPad ( '\x00'	) x
-    //x
-    @lengthOf( crc ), } packet// c
-repeatCount { zchar[ 255]	f32a	@calculatedFrom(
-    ""x y"" )
-,@tag(
-    255) char[] asx
-@calculatedFrom(""" ++ [28040; 24687]%N ++ runes_of_ascii """
-    // " ++ [27880; 37322]%N ++ runes_of_ascii "
-    ) , leftPad{
+Eval vm_compute in ("<<<M5>>>" ++ check (runes_of_ascii "MetaData  asx {char[] MetaDataX ,
+lengthOf Z9_	, crc
+    Foo ,char[ 4294967296]
+BodyLength , Foo leftPad `doc`, tag // a // b
+u128 , } root packet
+    stringy { // trailing space 
+match Header as
+    repeatCount	{ [ ""{,}""] :
+Header
 /// triple
+//
+,255 :repeatCount , 00 :pack, 1 : trueish
+    , 7
+    : A }
+    ,
+T
+    {Z9_
+`
+` ,
+} ,
+    int16 o
+@calculatedFrom(
+""it's""
+) `line1
+line2`	, match zchar
+as As{ ""CRC32"" :	a1, 42: Header [ 10
+    //
+    ] : zchar // trailing space 
+,
+    }// " ++ [128512]%N ++ runes_of_ascii " emoji
+, @tag( 42 )repeat i64_{
+    // c
+    char[00 ] _x `{ , }` ,
+}
+,repeat //x
+char[] uint8x
+`crlf
+line` ,@leftPad
+(	'\x00'
+    ) @tag( 7 )
+    int32
 // a // b
-repeat int u8x ,
-i64
-trueish	@lengthOf(	i8i8 ) `" ++ [28040; 24687; 31867; 22411]%N ++ runes_of_ascii "`
-    // a // b
-    ,
-repeat
-int64 //	t
-pack
-    , } ,
-    match float as o { //
-65535
-:
-Pad ,[
-""" ++ [128512]%N ++ runes_of_ascii """ , """ ++ [28040; 24687]%N ++ runes_of_ascii """,
-    0123456789 ]
-//x
 // @lengthOf(
-:i8i8
-, 7 :
-asx 00: stringy } ,@calculatedFrom(
-""" ++ [233]%N ++ runes_of_ascii "t" ++ [233]%N ++ runes_of_ascii """ ) f32a
+repeatCount
+    @calculatedFrom(
+""x y"" )
+`// not a comment` , u32 zchar
+    `
+` , repeat stringy { i8i8 lengthOf
+, } , // packet A { u8 x, }
+@calculatedFrom(  ""abc"" ) @lengthOf( tag ) @lengthOf( /// triple
+rootA )  char[3	] // c
+rootA`" ++ [233]%N ++ runes_of_ascii "` ,// c
+}MetaData crc
+{
+float32
+asx `" ++ [233]%N ++ runes_of_ascii "` ,	string i64_// " ++ [128512]%N ++ runes_of_ascii " emoji
+,
+    }
+root packet Packet
+    //
+    {charz @lengthOf( zchar) ,	f32
+    f32a `{ , }` // a // b
+, i64 matchKey @lengthOf( leftPad )
+    , string trueish, @leftPad (  '0')
+    // trailing space 
+    tag@lengthOf( // a // b
+string_ ) `doc` , match stringy
+// @lengthOf(
+// @lengthOf(
+as calculatedFrom
+    { [
+0123456789 ]: repeatCount
+//	t
+//
+,} ,// trailing space 
+char[
+3]
+Header ,
+int64 MetaDataX
+,	@leftPad( ) len { packetx @lengthOf(chars ) `` ,
+    }, @rightPad ( '0'
+    )  x_y_z
+,
+} options{ rootA
 // packet A { u8 x, }
+//x
+= '0'
+; Foo =char
+    ;A
+    = zchar[ 0123456789 ]
+// " ++ [27880; 37322]%N ++ runes_of_ascii "
+//x
+;packetx = """ ++ [233]%N ++ runes_of_ascii "t" ++ [233]%N ++ runes_of_ascii """
+float = true } //x")).
+Eval vm_compute in ("<<<M385>>>" ++ check (runes_of_ascii "options {
+    StringPrefixLenType = u16;
+    ArrayPrefixLenType = u16;
+}
+
+packet SampleBinary {
+    uint16 MsgType `" ++ [28040; 24687; 31867; 22411]%N ++ runes_of_ascii "`,
+    u16 BodyLenght @lengthOf(Body) `" ++ [28040; 24687; 20307; 38271; 24230]%N ++ runes_of_ascii "`,
+    match MsgType as Body {
+        1 : Logon,
+        2 : Logout,
+        3 : Heartbeat,
+        4 : RiskControlRequest,
+        5 : RiskControlResponse,
+    },
+    @calculatedFrom(""CRC32"")
+    u32 Ckecksum `" ++ [26657; 39564; 21644]%N ++ runes_of_ascii "`,
+}
+
+packet Logon {
+    @leftPad('0')
+    char[10] UserName `" ++ [29992; 25143; 21517]%N ++ runes_of_ascii "`,
+    string Password `" ++ [23494; 30721]%N ++ runes_of_ascii "`,
+    uint64 ClientId `" ++ [23458; 25143; 31471]%N ++ runes_of_ascii "ID`,
+    u16 HeartbeatInterval `" ++ [24515; 36339; 38388; 38548]%N ++ runes_of_ascii "`,
+}
+
+packet Logout {
+    @rightPad('0')
+    char[10] UserName `" ++ [29992; 25143; 21517]%N ++ runes_of_ascii "`,
+    uint64 ClientId `" ++ [23458; 25143; 31471]%N ++ runes_of_ascii "ID`,
+}
+
+packet Heartbeat {
+}
+
+packet RiskControlRequest {
+    string UniqueOrderId `" ++ [21807; 19968; 35746; 21333; 21495]%N ++ runes_of_ascii "`,
+    char[16] ClOrdID `" ++ [23458; 25143; 35746; 21333; 21495]%N ++ runes_of_ascii "`,
+    char[3] MarketID `" ++ [24066; 22330]%N ++ runes_of_ascii "id`,
+    char[12] SecurityID `" ++ [35777; 21048; 20195; 30721]%N ++ runes_of_ascii "`,
+    char Side `" ++ [20080; 21334; 26041; 21521]%N ++ runes_of_ascii "`,
+    char OrderType `" ++ [35746; 21333; 31867; 22411]%N ++ runes_of_ascii "`,
+    u64 Price `" ++ [20215; 26684]%N ++ runes_of_ascii "`,
+    u32 Qty `" ++ [25968; 37327]%N ++ runes_of_ascii "`,
+    repeat string ExtraInfo `" ++ [38468; 21152; 20449; 24687]%N ++ runes_of_ascii "`,
+    repeat SubOrder {
+        char[16] ClOrdID `" ++ [23376; 35746; 21333; 21495]%N ++ runes_of_ascii "`,
+        u64 Price `" ++ [23376; 35746; 21333; 20215; 26684]%N ++ runes_of_ascii "`,
+        u32 Qty `" ++ [23376; 35746; 21333; 25968; 37327]%N ++ runes_of_ascii "`,
+    },
+}
+
+packet RiskControlResponse {
+    string UniqueOrderId `" ++ [21807; 19968; 35746; 21333; 21495]%N ++ runes_of_ascii "`,
+    i32 Status `" ++ [29366; 24577]%N ++ runes_of_ascii "`,
+    string Msg `" ++ [32467; 26524; 20449; 24687]%N ++ runes_of_ascii "`,
+    repeat Detail,
+}
+
+packet Detail {
+    string RuleName `" ++ [35268; 21017; 21517; 31216]%N ++ runes_of_ascii "`,
+    u16 Code `" ++ [21407; 22240; 20195; 30721]%N ++ runes_of_ascii "`,
+}")).
+Eval vm_compute in ("<<<M128>>>" ++ check (runes_of_ascii "root
+packet // " ++ [27880; 37322]%N ++ runes_of_ascii "
+crc
+    {	@lengthOf(	As
+)@calculatedFrom(""\" ++ [233]%N ++ runes_of_ascii """
+    ) zchar[ 4294967296 ]MetaDataX `doc` ,/// triple
+rootA @calculatedFrom( ""it's"" )	,@tag( 65535
+    ) @tag( // c
+7 )@tag( 00
+//
+// c
+) len @lengthOf( A ) `two words` ,
 // trailing space 
-u , repeat msg_type `" ++ [233]%N ++ runes_of_ascii "` ,
-repeat zchar[
-42 ]crc
-    , uint64
-    // " ++ [27880; 37322]%N ++ runes_of_ascii "
-    lengthOf , repeat As``
-    ,
-zchar[ 007 ] tag `tab	here`  , }	root packet charz
-{
-    string msg_type , @calculatedFrom( """") repeat//	t
-string  tag `tab	here`
-    ,repeat calculatedFrom ,
-repeat Foo, uint64
-Foo@lengthOf( packetx) ,
-@rightPad  ( )	match	falsey as calculatedFrom { [ 0 , 10
-    , ""a\""b"" ] : metadata ,
-} , @calculatedFrom( ""\" ++ [233]%N ++ runes_of_ascii """ )
-    i64  As ``,
+// " ++ [128512]%N ++ runes_of_ascii " emoji
+string	rootA@lengthOf( pack
+// trailing space 
+//	t
+) ,
+// " ++ [128512]%N ++ runes_of_ascii " emoji
+// trailing space 
+repeat zchar ,
+@calculatedFrom( ""abc"" )@leftPad ('\x00' ) @rightPad
+( )match x_y_z
+    as Z9_{
+""it's""
+    :
+Logon//x
+, ""x y"" : Packet,""abc""
+: trueish 4294967296 // @lengthOf(
+:
+    repeatCount """ ++ [128512]%N ++ runes_of_ascii """:  x_y_z
+} , char[ 10 // @lengthOf(
+]
+    stringy	`it's`
+, @leftPad (
+'\x00' )
+rootA @lengthOf(  i64_  )
+    , } MetaData falsey {
+Packet repeatCount `tab	here` ,
+}MetaData string_ {
+    float64 roots `line1
+line2` , char
+As //
+`
+` , zchar[ 65535 ]falsey`a\` ,A
+    T , _x metadata, } packet
+_x // packet A { u8 x, }
+{zchar[255 ] string_@lengthOf(
+//	t
+// @lengthOf(
+u128 ) `{ , }`	,
+}root packet Packet
+    {repeat // " ++ [128512]%N ++ runes_of_ascii " emoji
+lengthOf , }")).
+Eval vm_compute in ("<<<M107>>>" ++ check (runes_of_ascii "packet falsey { i64_ ,	charz  {
+match Packet  as Pad { ""\n"" :Packet
+    , ""// no comment"" // " ++ [128512]%N ++ runes_of_ascii " emoji
+:
+f32a// `tick` ""quote"" 'q'
+, [
+    /// triple
+    3  ,4294967296,
+    10 ,//
+7 , 10	]
+: u
+, // trailing space 
+""`tick`"": u8x
+,
+[ 7 , ""it's"" ]:Packet, 0 : len
+    //
+    , }
+    , }, /// triple
+@lengthOf(	f32a) char[ 3 ]options1
     @lengthOf(
-rootA) u32 Logon // c
-@lengthOf(a1  ) , @calculatedFrom( """" ) @leftPad ( ' '
-    )
-    uint16
-i8i8
-@calculatedFrom( ""// no comment""
-) ,  } root packet// trailing space 
-uint8x {
-    repeat f32
-chars `tab	here` ,}
-MetaData calculatedFrom
+Pad)
+, zchar[ 0123456789 ]// trailing space 
+T ``
+,
+} packet
+Pad
 {
+    // c
+    o roots `{ , }` // " ++ [128512]%N ++ runes_of_ascii " emoji
+, }packet f32a {
+_x//
+@calculatedFrom(	""x y"") //x
+,@tag( 65535
+) //	t
+char pack @lengthOf( zchar  ) ,repeat //
+int64 falsey  ,repeat len {match A
+    as rootA {[ 42,  ""\n"" ]:
+Z9_ , }
+,repeat i16
+A , repeat zchar[ 65535 ] tag `
+` ,
+f64 float
+    @lengthOf( f32a ) ``  ,
+// `tick` ""quote"" 'q'
+// packet A { u8 x, }
+} , x
+    u8x
+, @tag(  42	) repeat As Packet	, @lengthOf( Pad
+    )repeat
+    f64 rootA ,// @lengthOf(
+}")).
+Eval vm_compute in ("<<<M209>>>" ++ check (runes_of_ascii "packet calculatedFrom { // a // b
+string charz
+`two words`
+//	t
+//x
+, } packet stringy {
+@lengthOf(msg_type
+)	crc
+    // " ++ [128512]%N ++ runes_of_ascii " emoji
+    , @leftPad
+(	'0')crc @lengthOf(
+u128 //	t
+) ,@leftPad(
+    ' '
+)match
+x_y_z as
+rootA { [// @lengthOf(
+3 ,255 ] : int
+    ""1"": o ,// a // b
+10:tag
+, // c
+10// " ++ [128512]%N ++ runes_of_ascii " emoji
+: Header
+    ,3 :
+a1,""" ++ [128512]%N ++ runes_of_ascii """ :
+packetx
+    , }
+// packet A { u8 x, }
+// packet A { u8 x, }
+, match
+// " ++ [27880; 37322]%N ++ runes_of_ascii "
+// a // b
+o as x//x
+{  ""a	b"" : u8x ,} ,  @rightPad () repeat
+u packetx
+,
+    T // " ++ [27880; 37322]%N ++ runes_of_ascii "
+,repeat
+Logon ,	T{repeat
+x_y_z , // a // b
+i8 crc
+`two words` ,
+char[] calculatedFrom
+    @calculatedFrom(""x y""
+) , } , roots calculatedFrom,
+@lengthOf(
+asx)  repeat x_y_z{ T
+matchKey, } , }
+options { float
+=char[1 ]
+    ;
+    msg_type // c
+=i8 x =
 //
 // `tick` ""quote"" 'q'
-metadata crc , }
-
+zchar[ 7] ; f32a =""\n""}
 ")).
-Eval vm_compute in ("<<<M282>>>" ++ check (runes_of_ascii "// a // b
-packet stringy	{
-string zchar ,
-    repeat T
-, match
-u
-as  charz {
-007
-    //x
-    :
-//	t
-// @lengthOf(
-float// trailing space 
-,""\" ++ [233]%N ++ runes_of_ascii """ : Logon ""a	b"":
-//	t
-//	t
-pack, } , match uint8x as
-    // " ++ [27880; 37322]%N ++ runes_of_ascii "
-    roots
-{
-1
-    // `tick` ""quote"" 'q'
-    : len
-,	}
-//x
-// " ++ [27880; 37322]%N ++ runes_of_ascii "
-, }packet zchar {	roots options1
-    //x
-    `// not a comment` , int64 As
-,
-    i16 float
-    @lengthOf( falsey
-    // " ++ [27880; 37322]%N ++ runes_of_ascii "
-    ) `a\`
-    , int64 msg_type `tab	here`
-, @tag(0
-    // `tick` ""quote"" 'q'
-    ) repeat uint8x ,
-    @lengthOf(x
-    ) repeat metadata
-    , zchar[ 0 ]	int , uint64
-    zchar ,zchar[7 // " ++ [27880; 37322]%N ++ runes_of_ascii "
-]
-msg_type
-,
-@calculatedFrom(
-/// triple
-// " ++ [27880; 37322]%N ++ runes_of_ascii "
-""" ++ [28040; 24687]%N ++ runes_of_ascii """ ) crc
-, }
-root packet zchar { repeat
-leftPad,
-} packet
-A{
-@lengthOf(
-    string_ )	x@lengthOf( options1) `two words`,  string
-len ,	}packet	falsey{ i64_ @calculatedFrom(	""{,}"" ) , repeat
-string chars
-, zchar[ 7]calculatedFrom
-, Header
-    { char u`two words`, repeat char[] // c
-tag
-    `say ""hi""`	, Z9_
-    @lengthOf(
-T ) `line1
-line2` , } , msg_type @calculatedFrom( ""// no comment""
-    ) , @rightPad (// packet A { u8 x, }
-'\x00' )
-@lengthOf( asx )
-falsey
-,
-    } // packet A { u8 x, }")).
-Eval vm_compute in ("<<<M129>>>" ++ check (runes_of_ascii "packet
-MetaDataX { metadata trueish`" ++ [233]%N ++ runes_of_ascii "`
-//x
-//x
-,// trailing space 
-@calculatedFrom(""`tick`"" )uint8x
-    // c
-    @calculatedFrom(  """ ++ [128512]%N ++ runes_of_ascii """  ) `{ , }`
-    , @calculatedFrom( ""a\""b"" ) // packet A { u8 x, }
-match Packet as
-    body { 3
-    : repeatCount
-,""x y""
-    /// triple
-    :lengthOf// `tick` ""quote"" 'q'
-4294967296 :
-    packetx
-    , [ ""abc""
-, ""// no comment""
-    ,
-""abc"" ,
-""\n"" //	t
-, ""1""
-]: u128 [ 00 , 65535 ,""x y"" ,""{,}""  ]
-: calculatedFrom ,
-    7 :	i8i8  }, u8x ,match int as	matchKey{
-[1 ,""CRC32""]
-    // trailing space 
-    :// @lengthOf(
-asx,	}
-    , @lengthOf( // " ++ [128512]%N ++ runes_of_ascii " emoji
-a1) string x `it's` , repeat // @lengthOf(
-char matchKey  ,
-    // a // b
-    @leftPad // trailing space 
-( )@rightPad ( ) match
-metadata	as  Packet { [ 65535  ] : Header , }, @tag( 255)
-zchar[ 3 ] crc `u8 x,` ,} MetaData
-    rootA // trailing space 
-{
-i8i8	Pad , int8
-packetx `{ , }`
-,
-    int8 stringy,
-    // `tick` ""quote"" 'q'
-    body _x  , body o , }")).
-Eval vm_compute in ("<<<M1899>>>" ++ check (runes_of_ascii "options {
-    matchKey = ""x y"";
-    MetaDataX = '0';
-}
-
-packet msg_type {
-    @rightPad(' ')
-    repeat u128 body,
-    match body as pack {
-        [""\" ++ [233]%N ++ runes_of_ascii """, ""1""] : BodyLength,
-        [
-            255, 007, 007, 0123456789, ""a	b"",
-            ""a\\"", ""{,}""
-        ] : options1,
-    },
-    @leftPad()
-    @lengthOf(charz)
-    @tag(42)
-    o {
-        i32 msg_type @lengthOf(A) `doc`,
-        zchar[1] charz,// c
-        i8 packetx `{ , }`,
-        msg_type `crlf
-        line`,
-    },
-    @calculatedFrom(""\" ++ [233]%N ++ runes_of_ascii """)
-    Z9_ @calculatedFrom(""" ++ [128512]%N ++ runes_of_ascii """) `tab	here`,
-    repeat char[] Foo,
-    repeat zchar[0123456789] u128,
-}
-
-packet f32a {
-    f32a @lengthOf(matchKey),
-    @rightPad(' ')
-    @lengthOf(chars)
-    _x Foo ``,
-    match body as body {
-        [4294967296, 3, 0123456789, ""packet"", """ ++ [128512]%N ++ runes_of_ascii """] : T,
-        [""a\\""] : T,
-        ""\n"" : u8x,
-    },
-}//x
-
-root packet lengthOf {
-}")).
-Eval vm_compute in ("<<<M1734>>>" ++ check (runes_of_ascii "
-// a // b
-	packet
-	u128 
-{repeat chars
-{  i64 u8x	`
-`  // a // b
-  	,  // c
-_x@lengthOf( falsey
-    )
-,  Logon `" ++ [28040; 24687; 31867; 22411]%N ++ runes_of_ascii "`
-
-,
-
-repeat char[]
-    trueish`tab	here`  , 
-} ,}
-
-    root packet T
-
-    { 
-match
-Packet
-    as
-trueish
-
-{
-""packet""	:
-	charz,[
-4294967296
-,  ""1""	]
-:
-
-    A
-	,
-    7  :
-
-    x
-    // " ++ [27880; 37322]%N ++ runes_of_ascii "
-      , 
-[  
-  // a // b
-7	,
-    ""a	b""
-
-]:	u128 255 : As 
-3	:Packet
-,} ,
-        //	t
-		// trailing space 
-
-	pack
-
-    `a\`  , @calculatedFrom(
-
-    """ ++ [233]%N ++ runes_of_ascii "t" ++ [233]%N ++ runes_of_ascii """ 	 //	t
-	)
-	rootA  matchKey
-
-    ,
-
-char[
-
-65535
-	]/// triple
-  leftPad  @lengthOf( 
-roots
-
-//
-  	),
-	repeat
-
-MetaDataX  { 
-u64
-
-    a1 
-@calculatedFrom( 
-""x y"") `doc` 
-, 	 //	t
-  uint8
-
-    falsey ,
-match 
-BodyLength
-    as A {	[ ""\" ++ [233]%N ++ runes_of_ascii """  ,255 
-, """",  ""it's""
-]:  Foo
-
-, 3
-
-    :  u128 }, }  , }")).
-Eval vm_compute in ("<<<M1911>>>" ++ check (runes_of_ascii "  // top
-
-	packet// c0a
-
-// c0b
-	A	// c1
-	{
-        // c2
-u8 
-
-    // c3
-    a // c4a
-
-// c4b
-  ,
-    }	// c6a
-  // c6b
-	packet	// c7a
-// c7b
-	B  // c8a
-  	// c8b
-
-{ 
-u16 // c10
-b 	 // c11a
-  // c11b
-    , 
-// c12
-
-	}
-	    // c13
-  	root	// c14
-packet
-	P // c16
-    	{	// c17a
-    	// c17b
-      u8
-
-K1	// c19
-    	,// c20
-  u8  // c21a
-  // c21b
-      K2 	 // c22a
-
-  // c22b
-  ,  // c23a
-    // c23b
-    match// c24a
-    	// c24b
-  K1
-as
-
-    // c26
-M1// c27a
-// c27b
-    	{// c28a
-		// c28b
-1  
-      // c29
-  :
-    // c30
-	A// c31
-    ,// c32a
-	// c32b
-	} ,
-match 
-K2  
-  // c36
-	as
-    // c37
-  M2// c38
-	{
-    1 
-: 	 // c41a
-// c41b
-	B 
-
-    // c42
-
-	, }, 
-
-    // c45
-	}// c46")).
-Eval vm_compute in ("<<<M1122>>>" ++ check (runes_of_ascii "// top
-options // c0
-{ // c1
-uint8x // c2
-= // c3
-007 // c4
-; // c5
-lengthOf // c6
-= // c7
-i8 // c8
-; // c9
-} // c10
-packet // c11
-i64_ // c12
-{ // c13
-@calculatedFrom( // c14
-""1"" // c15
-) // c16
-@tag( // c17
-3 // c18
-) // c19
-@lengthOf( // c20
-rootA // c21
-) // c22
-repeat // c23
-int8 // c24
-Packet // c25
-`u8 x,` // c26
-, // c27
-} // c28
-root // c29
-packet // c30
-stringy // c31
-{ // c32
-@rightPad // c33
-( // c34
-' ' // c35
-) // c36
-repeat // c37
-char[ // c38
-10 // c39
-] // c40
-repeatCount // c41
-, // c42
-@tag( // c43
-255 // c44
-) // c45
-float64 // c46
-msg_type // c47
-@calculatedFrom( // c48
-""packet"" // c49
-) // c50
-, // c51
-} // c52
-")).
-Eval vm_compute in ("<<<M1447>>>" ++ check (runes_of_ascii "packet
-leftPad //
-
-{
-	@rightPad()repeat
-
-chars  {
-
-    crc /// triple
-	pack ,
-} 
-,	@calculatedFrom( """ ++ [28040; 24687]%N ++ runes_of_ascii """
-    )@lengthOf(  options1 )  @tag(	65535)
-    Foo
-
-    ,
-match
-
-    matchKey as// " ++ [128512]%N ++ runes_of_ascii " emoji
-
-tag{
-// c
-		[""{,}""
-
-    ,	""""
-    , ""`tick`"" ,3,  ""it's""
-
-    ,  """ ++ [128512]%N ++ runes_of_ascii """
-
-, ""it's"" ] 
-:
-
-    As
-	,[
-        /// triple
-	//	t
-
-""x y""	]  
-  //x
-  : chars
-
-    ,
-
-""" ++ [233]%N ++ runes_of_ascii "t" ++ [233]%N ++ runes_of_ascii """:
-
-    uint8x
-    ,
-
-    4294967296 :	packetx ""// no comment""
-:calculatedFrom, }
-    ,@calculatedFrom( 
-""// no comment"" // @lengthOf(
-
-) char[  // trailing space 
-    007 ]f32a ,
-    }  // a // b
-")).
-Eval vm_compute in ("<<<M1399>>>" ++ check (runes_of_ascii "  MetaData  u128
-	{// a // b
-		string zchar 	 //x
-`two words`
-,
-    u16
-
-packetx`a\`  ,  char[ 1]
-
-    Logon
-
-, len
-crc ,
-
-char[7
-
-] i8i8
-
-,
-	char[]
-    calculatedFrom
-	,
-} // @lengthOf(
-  MetaData  u	{
-    u// " ++ [128512]%N ++ runes_of_ascii " emoji
-  u128
-
-    ,  //	t
-      } 
-root packet
-    metadata
-{ }
-	options {
-matchKey
-=
-
-    255
-    ;x_y_z = 
-007
-
-    crc
-= 
-int16	;
-
-zchar = 	 // c
-	char[ 42] ;int=
-true;}
-    options
-    {Header =
-""" ++ [128512]%N ++ runes_of_ascii """
-;
-
-    len = ' ';	matchKey
-=
-	"""";
-MetaDataX=' '
-
-;  o 
-=
-'\x00'
-;
-	}  
-  /// triple
-")).
-Eval vm_compute in ("<<<M133>>>" ++ check (runes_of_ascii "MetaData  falsey
-{ } root packet // `tick` ""quote"" 'q'
-o {@tag(3// " ++ [128512]%N ++ runes_of_ascii " emoji
-) @calculatedFrom( """") @lengthOf(
-    pack)char[ 65535
-    ]falsey
-    @lengthOf(falsey ) , }  root packet roots
-    {@lengthOf(
-chars )match Logon as chars{ ""`tick`"" :charz
-    // packet A { u8 x, }
-    ""a\\"" :Z9_ 007 : trueish ""CRC32"" :	msg_type , [
-3
-    ,3 // `tick` ""quote"" 'q'
-,
-00 ,4294967296 ,
-0
-,7 , //
-""x y"",""\" ++ [233]%N ++ runes_of_ascii """
+Eval vm_compute in ("<<<M1901>>>" ++ check (runes_of_ascii "packet charz {
     //	t
-    ] : metadata ,""a	b""
-//x
-// " ++ [27880; 37322]%N ++ runes_of_ascii "
-:	crc } , }
-")).
-Eval vm_compute in ("<<<M1518>>>" ++ check (runes_of_ascii "
-packet	crc
-
-    {
-    match trueish
-	as
-len
-
-    {
-
-    42
-
-    :
-uint8x
-    , 	 // " ++ [128512]%N ++ runes_of_ascii " emoji
-	""1"" 
-:
-
-    asx , 3
-:
-body[
-
-    ""1""
-	,
-0123456789
-	] :
-u""packet"" 
-:o , } ,}MetaData
-tag
-	{
-    string
-o
-    `line1
-line2`
-    , 
-char[] //
-  Header`{ , }`// c
-    ,uint8x 
-Z9_
-	, }MetaData
-tag
-
-{ i8
-    len,
-	}
-
-options 	 //x
-{ 
-  // `tick` ""quote"" 'q'
-    /// triple
-      x=
-
-10
-
-    ;
-	}
-")).
-Eval vm_compute in ("<<<M1654>>>" ++ check (runes_of_ascii "// packet A { u8 x, }
-MetaData roots {
-    char[00] lengthOf ``,
-    As stringy,
-    x calculatedFrom,
-}
-
-packet i8i8 {
-    crc `crlf
-        line`,
-    @rightPad()
-    zchar[42] falsey,
-    @tag(42)
-    u32 leftPad,
-    @tag(42)
-    a1 @lengthOf(Z9_),
-    match leftPad as crc {
-        [1, 255, ""a\""b""] : trueish,
-        3 : float,
-        0 : lengthOf,
+    repeat i64_,
+    trueish {
+        repeat _x,
+        repeatCount,
+        repeat u16 matchKey `
+                `,
+        // " ++ [128512]%N ++ runes_of_ascii " emoji
+        // a // b
+        matchKey @calculatedFrom(""a\""b"") `it's`,
     },
-}")).
-Eval vm_compute in ("<<<M285>>>" ++ check (runes_of_ascii "packet zchar { @calculatedFrom(
-    ""packet"" )
-    @lengthOf( body ) @lengthOf(A )
-    repeat /// triple
-u128
-    { f32a
-chars `` , repeat x_y_z `tab	here`	, // c
-} , // " ++ [27880; 37322]%N ++ runes_of_ascii "
-repeat
-Logon {// " ++ [27880; 37322]%N ++ runes_of_ascii "
-u@calculatedFrom( // `tick` ""quote"" 'q'
-""// no comment"") //
-`two words` , char
-    u8x , uint32  uint8x  , } , int8
-    asx ``,}
-")).
-Eval vm_compute in ("<<<M1451>>>" ++ check (runes_of_ascii "  packet
-len
-	{ }
-
-options { 
-Z9_=
-    4294967296;
-
-_x =  // a // b
-	0
-f32a=zchar[
-42 ]
-;
+    @tag(007)
+    @calculatedFrom(""a\\"")
+    @tag(3)
+    f32 f32a @lengthOf(asx) `crlf
+        line`,
+    repeat i8 string_,
+    @lengthOf(Logon)
+    @lengthOf(x_y_z)
+    @lengthOf(zchar)
+    repeat char[65535] Foo `" ++ [233]%N ++ runes_of_ascii "`,
+    @calculatedFrom(""abc"")
+    trueish @lengthOf(A),
+    char[0] float,
+    Packet @calculatedFrom(""a	b""),
 }
 
-root
-	packet 
-        // @lengthOf(
-	BodyLength 	 // trailing space 
-	{ }
-
-options
+MetaData Pad {
+    char[00] leftPad,
+    u8 rootA `
+        `,
+    //
+    // " ++ [128512]%N ++ runes_of_ascii " emoji
+    int32 a1 `say ""hi""`,
+    Z9_ float,//x
+    i32 Pad,
+}")).
+Eval vm_compute in ("<<<M154>>>" ++ check (runes_of_ascii "packet BodyLength
+    // a // b
+    {@rightPad (
+'\x00' )
+u8x/// triple
+,  @tag(  007
+) @calculatedFrom( ""packet""	) repeat  uint8x x_y_z, }
+    MetaData A {
+    // packet A { u8 x, }
+    Z9_ // a // b
+f32a ,
+    zchar[ 255// a // b
+]
+    msg_type`say ""hi""` ,char[ 1	]Logon  `tab	here` ,//
+}
+packet uint8x {  @calculatedFrom(
+""" ++ [28040; 24687]%N ++ runes_of_ascii """ )@tag(// `tick` ""quote"" 'q'
+65535)	u32 int
+@lengthOf( u8x )
+`say ""hi""`
+,	@leftPad ( ' ') stringy //
 {
+    string_ A ,
+    char[ 4294967296
+] i8i8 `" ++ [233]%N ++ runes_of_ascii "`	, char[]  Logon
+,
+string
+x_y_z@lengthOf(	Packet ),
+} , zchar[	4294967296 ]
+int	`{ , }` , }
+// trailing space 
+// " ++ [27880; 37322]%N ++ runes_of_ascii "
+packet u8x
+    { }
+// a // b
+")).
+Eval vm_compute in ("<<<M1751>>>" ++ check (runes_of_ascii "  options
 
-    string_
-	=
-	u32
+    { LittleEndian= false
+;  ArrayPrefixLenType =  u8;
+	FixedStringPadFromLeft
 
-;
-	charz
     = 
-	/// triple
-    	// packet A { u8 x, }
-    string ;
-	}
+true 
+;
+	FixedStringPadChar=	'0'
+    ; }
+	packet
+Heartbeat	{
 
-packet
-len  {
-}
-")).
-Eval vm_compute in ("<<<M1348>>>" ++ check (runes_of_ascii "options {
-    LittleEndian = false;
-    StringPrefixLenType = u16;
-}
-packet Heartbeat {
-    @rightPad('0') char[7] seqNo,
-    uint64 Tail,
-    i16 Flags,
-    u16 msgKind,
-}
-root packet Reject {
-    zchar[3] tag7,
-    repeat Heartbeat,
-    repeat string clOrdID,
-}
-")).
-Eval vm_compute in ("<<<M1313>>>" ++ check (runes_of_ascii "options	{ FixedStringPadChar
-=
+    string lastPx
+, uint8
+Qty
+	,
+    i64	Acct	,	char[
+4 ]
+Ref
+    , }packet
+Fill 
+{uint8 Ref ,
 
-'0';  }packet
-Q
-{ zchar[4  ]
+Heartbeat
 
-z
-	, @rightPad  ('\x00'  )
+,	f32  OrderId
+,
+	repeat 
+f32 
+x ,} 
+root
+	packet
+Order
+	{	zchar[
+2 
+]	OrderId
 
-    char[ 
-3
+,
+	zchar[2
+
+    ]
+
+Acct
+,zchar[	1	]
+
+Note  , zchar[	9
 ]
-n , char[
-    5 ]  d,
-}
+Qty
+,  string
 
-    root
-packet
-R
+price ,string
+	tag7 ,
 
-{
+u32
 
-    Q 
-, zchar[8 
-]top
-
-    ,	repeat zchar[	2
-]
-	zs
-
-    , 
-}")).
-Eval vm_compute in ("<<<M10>>>" ++ check (runes_of_ascii "MetaData //	t
-x{
-    } packet rootA
-//x
-//	t
-{ i64	As
-//x
-// @lengthOf(
-@lengthOf(
-    A )
-`// not a comment` ,
-}
-    options { asx =	string ; i8i8 =zchar[
-0123456789 ];	Foo =10 ; As =true
-; }
+    x , 
+match x as	Body	{	123
+:
+	Fill  , 112
+	:
+Heartbeat
+,}
+, 
+u32 
+seqNo
+	@calculatedFrom( ""CRC32""
+	)
+    , }
 ")).
-Eval vm_compute in ("<<<M1281>>>" ++ check (runes_of_ascii "// top
-root // c0a
-  // c0b
-packet P {
-    // c3
-u16
+Eval vm_compute in ("<<<M1324>>>" ++ check (runes_of_ascii "// top
+root
+    // c0
+packet Frame
+    // c2
+{ u8
     // c4
-a
+K
     // c5
 ,
     // c6
-u32 // c7a
-  // c7b
-Sum // c8
-@calculatedFrom( // c9a
+Logon
+    // c7
+first
+    // c8
+, // c9
+match // c10
+K // c11a
+  // c11b
+as
+    // c12
+Body // c13a
+  // c13b
+{
+    // c14
+1 : Logon
+    // c17
+, // c18a
+  // c18b
+2
+    // c19
+: // c20a
+  // c20b
+Logout ,
+    // c22
+}
+    // c23
+, // c24a
+  // c24b
+} // c25a
+  // c25b
+packet Logon { string // c29a
+  // c29b
+user // c30
+, // c31
+} // c32
+packet
+    // c33
+Logout
+    // c34
+{ u16 reason , // c38a
+  // c38b
+} // c39a
+  // c39b
+")).
+Eval vm_compute in ("<<<M1578>>>" ++ check (runes_of_ascii "packet Logon {
+    repeatCount {
+        BodyLength `crlf
+        line`,
+    },
+    zchar a1 `u8 x,`,
+    match Foo as Foo {
+        ""\n"" : i8i8,
+        [""abc"", ""CRC32""] : crc,
+        [
+            3, ""x y"", 42, ""`tick`"", 1,
+            ""a\""b"", ""CRC32"", 255
+        ] : repeatCount,
+        [
+            1, 007, ""\n"", 007, 7,
+            ""// no comment"", 255
+        ] : uint8x,
+        00 : f32a,
+    },
+    // a // b
+    uint16 Pad @lengthOf(uint8x) `doc`,
+}")).
+Eval vm_compute in ("<<<M1193>>>" ++ check (runes_of_ascii "// top
+MetaData
+    // c0
+uint8x // c1
+{ char[]
+    // c3
+f32a // c4a
+  // c4b
+`// not a comment`
+    // c5
+, // c6a
+  // c6b
+float32 // c7
+roots
+    // c8
+, // c9
+char[ // c10a
+  // c10b
+7 // c11
+] // c12
+u8x // c13
+, // c14a
+  // c14b
+zchar[
+    // c15
+10
+    // c16
+] // c17
+f32a // c18
+, // c19a
+  // c19b
+u64
+    // c20
+pack // c21a
+  // c21b
+, u16
+    // c23
+pack // c24a
+  // c24b
+,
+    // c25
+}
+    // c26
+")).
+Eval vm_compute in ("<<<M1471>>>" ++ check (runes_of_ascii "packet crc {
+    match trueish as len {
+        42 : uint8x,
+        // " ++ [128512]%N ++ runes_of_ascii " emoji
+        ""1"" : asx,
+        3 : body,
+        [""1"", 0123456789] : u,
+        ""packet"" : o,
+    },
+}
+
+MetaData tag {
+    string o `line1
+        line2`,
+    char[] Header `{ , }`,
+    uint8x Z9_,
+}
+
+MetaData tag {
+    i8 len,
+}
+
+options {
+    // `tick` ""quote"" 'q'
+    /// triple
+    x = 10;
+}")).
+Eval vm_compute in ("<<<M1688>>>" ++ check (runes_of_ascii "
+packet
+A
+{
+u8
+    a
+
+    ,} packet
+    B { 
+u16
+
+    b
+	,	} 
+packet	C 
+{u32 c
+    ,
+    } root 
+packet	M	{
+u16 
+Kc	,  u16
+	Kb , u16 Ka
+,	match
+    Kc
+
+    as
+    X
+{
+    9
+
+    :  A , 10: B
+,  } ,  match
+Kb 
+as
+
+    Y
+
+    {	2
+:
+	C
+
+,1
+
+    :
+A,}	, match
+
+Ka
+as
+	Z { 
+1 :B
+,}
+
+    ,	A  ,  B	,
+C
+    ,
+} ")).
+Eval vm_compute in ("<<<M1923>>>" ++ check (runes_of_ascii "packet zchar {
+    @lengthOf(a1)
+    i64_ @lengthOf(Header) `" ++ [28040; 24687; 31867; 22411]%N ++ runes_of_ascii "`,
+    charz `" ++ [233]%N ++ runes_of_ascii "`,
+    char[007] i64_,
+    tag {
+        u16 matchKey,
+        match Pad as lengthOf {
+            [""CRC32"", ""abc""] : Packet,
+        },
+    },
+}
+
+MetaData body {
+    char[10] u128 `doc`,
+    /// triple
+    //x
+}//x")).
+Eval vm_compute in ("<<<M1250>>>" ++ check (runes_of_ascii "// top
+packet
+    // c0
+Inner
+    // c1
+{ // c2a
+  // c2b
+u8
+    // c3
+a // c4a
+  // c4b
+, }
+    // c6
+root // c7
+packet // c8
+P // c9a
   // c9b
-""CRC32"" ) , } // c13
+{
+    // c10
+Inner // c11a
+  // c11b
+ref_obj
+    // c12
+, // c13a
+  // c13b
+u8 x ,
+    // c16
+} // c17a
+  // c17b
 ")).
-Eval vm_compute in ("<<<M421>>>" ++ check (runes_of_ascii "packet uint8x
-{ match pack
-    as msg_type msg_type	{
-    0123456789 :	float
+Eval vm_compute in ("<<<M1928>>>" ++ check (runes_of_ascii "packet
+roots {
+
+    @calculatedFrom(
+
+    ""a\\"" 
+)
+@lengthOf( packetx
+) match repeatCount
+	as  body  {	007
+:lengthOf 
+, 00:  // `tick` ""quote"" 'q'
+zchar
+    ,
+} ,
+	char[]
+    chars `say ""hi""` ,
+} MetaData
+packetx
+{  }
+
+")).
+Eval vm_compute in ("<<<M1501>>>" ++ check (runes_of_ascii "packet roots {
+    @calculatedFrom(""a\\"")
+    @lengthOf(packetx)
+    match repeatCount as body {
+        007 : lengthOf,
+        00 : zchar,
+    },
+    char[] chars `say ""hi""`,
 }
-,
-} packet //	t
-a1
-    { } options {packetx
-    = '\x00'	; u128= ""a	b""  ; }
+
+MetaData packetx {
+}")).
+Eval vm_compute in ("<<<M1786>>>" ++ check (runes_of_ascii "
+
+  MetaData leftPad
+
+    {chars
+	MetaDataX
+    ,
+	} packet
+repeatCount
+{
+
+    char[  255	]
+
+    uint8x `" ++ [233]%N ++ runes_of_ascii "` , }MetaData
+
+    pack
+	{
+
+As 
+        // c
+
+  Foo , }
 ")).
-Eval vm_compute in ("<<<M508>>>" ++ check (runes_of_ascii "packet uint8x
-{ match pack
-    as msg_type	{
-    0123456789 :	float
-}
-,
-} packet //	t
-a1
-    { } options {packetx
-    = '\x00'	int16 u128= ""a	b""  ; }
+Eval vm_compute in ("<<<M355>>>" ++ check (runes_of_ascii "options  { As = true
+    MetaDataX =true	}	packet A { repeat calculatedFrom `say ""hi""`
+    ,} MetaData crc { u crc ,
+    uint32 body , i16 stringy
+`u8 x,`
+, }
 ")).
+Eval vm_compute in ("<<<M1608>>>" ++ check (runes_of_ascii "MetaData 
+    // c
+	  leftPad
+
+{
+    chars	MetaDataX 
+,} packet repeatCount{
+
+char[ 255 ]uint8x
+    `" ++ [233]%N ++ runes_of_ascii "`
+,	}
+
+    MetaData
+    pack
+	{
+	As
+
+Foo ,
+    }")).
 Eval vm_compute in ("<<<M540>>>" ++ check (runes_of_ascii "packet uint8x
 { match pack
     as msg_type	{
@@ -890,10 +823,10 @@ a1
     { } options " ++ [65279]%N ++ runes_of_ascii " {packetx
     = '\x00'	; u128= ""a	b""  ; }
 ")).
-Eval vm_compute in ("<<<M432>>>" ++ check (runes_of_ascii "packet uint8x
+Eval vm_compute in ("<<<M437>>>" ++ check (runes_of_ascii "packet uint8x
 { match pack
     as msg_type	{
-    : 0123456789	float
+    0123456789 float	:
 }
 ,
 } packet //	t
@@ -901,18 +834,18 @@ a1
     { } options {packetx
     = '\x00'	; u128= ""a	b""  ; }
 ")).
-Eval vm_compute in ("<<<M455>>>" ++ check (runes_of_ascii "packet uint8x
+Eval vm_compute in ("<<<M468>>>" ++ check (runes_of_ascii "packet uint8x
 { match pack
     as msg_type	{
     0123456789 :	float
 }
 ,
- packet //	t
-a1
+} packet //	t
+,
     { } options {packetx
     = '\x00'	; u128= ""a	b""  ; }
 ")).
-Eval vm_compute in ("<<<M510>>>" ++ check (runes_of_ascii "packet uint8x
+Eval vm_compute in ("<<<M533>>>" ++ check (runes_of_ascii "packet uint8x
 { match pack
     as msg_type	{
     0123456789 :	float
@@ -921,8 +854,7 @@ Eval vm_compute in ("<<<M510>>>" ++ check (runes_of_ascii "packet uint8x
 } packet //	t
 a1
     { } options {packetx
-    = '\x00'	; = ""a	b""  ; }
-")).
+    = '\x00'	; u128= ""a	b""  ;")).
 Eval vm_compute in ("<<<M711>>>" ++ check (runes_of_ascii "// @lengthOf(
 packet i8i8 { u128 o , }
 options { MetaDataX = true;
@@ -931,226 +863,181 @@ options { MetaDataX = true;
 = ""abc"" ;
     msg_type =
 i16 }")).
-Eval vm_compute in ("<<<M692>>>" ++ check (runes_of_ascii "// @lengthOf(
-packet i8i8 { u128 o , }
-options { MetaDataX = true;
-    BodyLength =""packet"" x_y_z= 007
-u8 //x
-= ""abc"" ;
-    msg_type =
-i16 }")).
-Eval vm_compute in ("<<<M1383>>>" ++ check (runes_of_ascii "packet Logon {
-    metadata @calculatedFrom(""a\\""),
-    @tag(42)
-    @tag(65535)
-    repeat u16 o `line1
-    line2`,
-}
-
-packet float {
-}")).
-Eval vm_compute in ("<<<M509>>>" ++ check (runes_of_ascii "packet uint8x
-{ match pack
-    as msg_type	{
-    0123456789 :	float
-}
-,
-} packet //	t
-a1
-    { } options {packetx
-    = '\x00'")).
-Eval vm_compute in ("<<<M680>>>" ++ check (runes_of_ascii "// @lengthOf(
+Eval vm_compute in ("<<<M709>>>" ++ check (runes_of_ascii "// @lengthOf(
 packet i8i8 { u128 o , }
 options { MetaDataX = true;
     BodyLength =""packet"" x_y_z= 007
 crc //x
-= ""abc""")).
-Eval vm_compute in ("<<<M1167>>>" ++ check (runes_of_ascii "MetaData leftPad { chars MetaDataX , } packet repeatCount { char[ 255 ] // c
-uint8x `" ++ [233]%N ++ runes_of_ascii "` , } MetaData pack { As Foo , }")).
-Eval vm_compute in ("<<<M1596>>>" ++ check (runes_of_ascii "
-MetaData
-
-    crc
-{	Pad
-
-    T
-,
-zchar[ 0123456789
-	] 
-a1 ,
-
-    int8
-
-trueish // c
-	,  } packet
-float{
-}
-")).
-Eval vm_compute in ("<<<M973>>>" ++ check (runes_of_ascii "packet A {
+= ""abc"" 
+    msg_type =
+i16 }")).
+Eval vm_compute in ("<<<M716>>>" ++ check (runes_of_ascii "// @lengthOf(
+packet i8i8 { u128 o , }
+ { MetaDataX = true;
+    BodyLength =""packet"" x_y_z= 007
+crc //x
+= ""abc"" ;
+    msg_type =
+i16 }")).
+Eval vm_compute in ("<<<M1761>>>" ++ check (runes_of_ascii "packet A {
     match k as n {
-        ""\
-"" : B,
-        [""\
-"", 1] : C,
-        [1,2,3,4,5,""\
-""] : D,
+        [
+            ""a"", ""bb"", 007, ""d"", ""e"",
+            66
+        ] : B,
+        2 : C,
     },
 }")).
-Eval vm_compute in ("<<<M1285>>>" ++ check (runes_of_ascii "// top
-root
-    // c0
-packet // c1a
-  // c1b
-P
-    // c2
-{ // c3
-string s // c5a
-  // c5b
-,
-    // c6
-} ")).
-Eval vm_compute in ("<<<M956>>>" ++ check (runes_of_ascii "packet A {
-    Inner {
-        u8 x `
-x`,
-        Deep {
-            u8 y `
-x`,
-        },
-    },
-}")).
-Eval vm_compute in ("<<<M568>>>" ++ check (runes_of_ascii "
-packet
-    asx {match match u128 as lengthOf
-{
-//	t
-// `tick` ""quote"" 'q'
-255 : x ,
-    } ,	}")).
-Eval vm_compute in ("<<<M892>>>" ++ check (runes_of_ascii "packet A {
-  match k as n {
-    [1, 22, 007, 4, 5, 66, 7, 8, 9, 10, 11] : B
-    2 : C
-  },
-}")).
-Eval vm_compute in ("<<<M873>>>" ++ check (runes_of_ascii "packet A {
-  match k as n {
-    [1, 22, ""c c"", 4, 5, ""f"", 7, 8, ""i""] : B,
-    2 : C
-  },
-}")).
-Eval vm_compute in ("<<<M617>>>" ++ check (runes_of_ascii "
-packet
-    asx {match u128 as lengthOf
-{
-//	t
-// `tick` ""quote"" 'q'
-255 : x ,
-    } 	}")).
-Eval vm_compute in ("<<<M1246>>>" ++ check (runes_of_ascii "options {
-    LittleEndian = true;
-}
-root packet P {
-    repeat char cs,
-    u8 x,
-}
+Eval vm_compute in ("<<<M1533>>>" ++ check (runes_of_ascii "options{
+
+_x =
+""`tick`"" 
+; matchKey	=
+
+    ""it's""
+
+;
+
+options1
+
+    =
+
+    u16	;
+	stringy=
+    true
+	    // c
+
+	}
+
 ")).
-Eval vm_compute in ("<<<M582>>>" ++ check (runes_of_ascii "
-packet
-    asx {match u128 as 
-{
-//	t
-// `tick` ""quote"" 'q'
-255 : x ,
-    } ,	}")).
-Eval vm_compute in ("<<<M1747>>>" ++ check (runes_of_ascii "packet
-    A
-{
-
-    match
-k
-
-as
-n{[""a"",  22,	""c c""
-	]
-
-:
-
-B,2
-	: C
-	} ,}
-")).
-Eval vm_compute in ("<<<M1659>>>" ++ check (runes_of_ascii "packet Inner {
-    u8 a,
-}
-
-root packet P {
-    Inner ref_obj,
-    u8 x,
+Eval vm_compute in ("<<<M1155>>>" ++ check (runes_of_ascii "MetaData leftPad { chars MetaDataX , } // c
+packet repeatCount { char[ 255 ] uint8x `" ++ [233]%N ++ runes_of_ascii "` , } MetaData pack { As Foo , }")).
+Eval vm_compute in ("<<<M1187>>>" ++ check (runes_of_ascii "MetaData leftPad { chars MetaDataX , } packet repeatCount { char[ 255 ] uint8x `" ++ [233]%N ++ runes_of_ascii "` , } MetaData pack { As Foo , // c
 }")).
-Eval vm_compute in ("<<<M793>>>" ++ check (runes_of_ascii "packet A {
-  match k as n {
-    [""a"", 22, ""c c""] : B,
-    2 : C
-  },
-}")).
-Eval vm_compute in ("<<<M1715>>>" ++ check (runes_of_ascii "packet A {
-    @tag(1)
-    @leftPad('0')
-    // b
-    char[4] x,
-}")).
-Eval vm_compute in ("<<<M151>>>" ++ check (runes_of_ascii "packet
-    stringy
-{ } MetaData crc
-/// triple
-//x
-{ u16 o ,}")).
-Eval vm_compute in ("<<<M1097>>>" ++ check (runes_of_ascii "packet A {
-    match k as n {
-        1 : B,// c
-    },
-}")).
-Eval vm_compute in ("<<<M1201>>>" ++ check (runes_of_ascii "packet body // c
-{ i32 f32a `{ , }` , } options { }")).
-Eval vm_compute in ("<<<M1100>>>" ++ check (runes_of_ascii "// top
-MetaData // c0
-tag // c1
-{ // c2
-} // c3
-")).
-Eval vm_compute in ("<<<M596>>>" ++ check (runes_of_ascii "
-packet
-    asx {match u128 as lengthOf
-{")).
-Eval vm_compute in ("<<<M1067>>>" ++ check (runes_of_ascii "packet A {    u8 x, // c    u8 y,}")).
-Eval vm_compute in ("<<<M1562>>>" ++ check (runes_of_ascii "
-
-  options{
-Packet
+Eval vm_compute in ("<<<M1602>>>" ++ check (runes_of_ascii "packet Header {
+    repeat char[0123456789] BodyLength `" ++ [28040; 24687; 31867; 22411]%N ++ runes_of_ascii "`,
+    zchar[3] chars,// trailing space 
+    A,
+}//")).
+Eval vm_compute in ("<<<M49>>>" ++ check (runes_of_ascii "options  { f32a = true;  metadata =""CRC32"" ;
+body // " ++ [27880; 37322]%N ++ runes_of_ascii "
 =
-	char[]}
-")).
-Eval vm_compute in ("<<<M998>>>" ++ check (runes_of_ascii "packet A {
- u8 x `d" ++ [5760]%N ++ runes_of_ascii "`, // c" ++ [5760]%N ++ runes_of_ascii "
+char ; A =
+float64	;
+} MetaData
+    rootA { }")).
+Eval vm_compute in ("<<<M671>>>" ++ check (runes_of_ascii "// @lengthOf(
+packet i8i8 { u128 o , }
+options { MetaDataX = true;
+    BodyLength =""packet"" x_y_z= 0")).
+Eval vm_compute in ("<<<M883>>>" ++ check (runes_of_ascii "packet A {
+  match k as n {
+    [1, ""bb"", 007, ""d"", 5, ""f"", 7, ""h"", 9, ""j""] : B
+    2 : C
+  },
 }")).
-Eval vm_compute in ("<<<M953>>>" ++ check (runes_of_ascii "packet A {
-    u8 x `
-x`,
-}")).
-Eval vm_compute in ("<<<M576>>>" ++ check (runes_of_ascii "
+Eval vm_compute in ("<<<M578>>>" ++ check (runes_of_ascii "
 packet
-    asx {match")).
-Eval vm_compute in ("<<<M115>>>" ++ check (runes_of_ascii "MetaData roots{ } 	 ")).
-Eval vm_compute in ("<<<M986>>>" ++ check (runes_of_ascii "packet A {
-}
-// c" ++ [160]%N)).
-Eval vm_compute in ("<<<M1225>>>" ++ check (runes_of_ascii "
-// c
-packet x { }")).
-Eval vm_compute in ("<<<M1230>>>" ++ check (runes_of_ascii "packet x { // c
+    asx {match u128 as as lengthOf
+{
+//	t
+// `tick` ""quote"" 'q'
+255 : x ,
+    } ,	}")).
+Eval vm_compute in ("<<<M633>>>" ++ check (runes_of_ascii "
+packet
+    asx {match u128 as `lengthOf
+{
+//	t
+// `tick` ""quote"" 'q'
+255 : x ,
+    } ,	}")).
+Eval vm_compute in ("<<<M562>>>" ++ check (runes_of_ascii "
+packet
+    asx match u128 as lengthOf
+{
+//	t
+// `tick` ""quote"" 'q'
+255 : x ,
+    } ,	}")).
+Eval vm_compute in ("<<<M570>>>" ++ check (runes_of_ascii "
+packet
+    asx {{ u128 as lengthOf
+{
+//	t
+// `tick` ""quote"" 'q'
+255 : x ,
+    } ,	}")).
+Eval vm_compute in ("<<<M832>>>" ++ check (runes_of_ascii "packet A {
+  match k as n {
+    [""a"", 22, ""c c"", 4, ""e"", 66] : B,
+    2 : C
+  },
 }")).
-Eval vm_compute in ("<<<M376>>>" ++ check (runes_of_ascii "
-// " ++ [128512]%N ++ runes_of_ascii " emoji
+Eval vm_compute in ("<<<M1251>>>" ++ check (runes_of_ascii "packet
+Inner
+	{u8	a 
+,
+} root
+	packet 
+P
+{ Inner	ref_obj,  u8	x
+,
+
+    }
+
 ")).
-Eval vm_compute in ("<<<M1025>>>" ++ check (runes_of_ascii "// c" ++ [8287]%N)).
+Eval vm_compute in ("<<<M1862>>>" ++ check (runes_of_ascii "packet A {
+    @leftPad()
+    char[4] x,
+    @rightPad()
+    zchar[2] y,
+}")).
+Eval vm_compute in ("<<<M877>>>" ++ check (runes_of_ascii "packet A { Inner { match k as n { [1,22,007,4,5,66,7,8,9] : B, }, }, }")).
+Eval vm_compute in ("<<<M653>>>" ++ check (runes_of_ascii "// @lengthOf(
+packet i8i8 { u128 o , }
+options { MetaDataX = true")).
+Eval vm_compute in ("<<<M314>>>" ++ check (runes_of_ascii "root packet string_{
+char[] matchKey ,
+} packet x {
+    } 	 ")).
+Eval vm_compute in ("<<<M767>>>" ++ check (runes_of_ascii "@rightPad char[] string u16 @tag( @lengthOf( as packet ,")).
+Eval vm_compute in ("<<<M1200>>>" ++ check (runes_of_ascii "packet
+// c
+body { i32 f32a `{ , }` , } options { }")).
+Eval vm_compute in ("<<<M375>>>" ++ check (runes_of_ascii "options {Foo = '0'	;	Pad = '0';	crc ='0' ; //	t
+}")).
+Eval vm_compute in ("<<<M763>>>" ++ check (runes_of_ascii "@calculatedFrom( true ; MetaData """ ++ [233]%N ++ runes_of_ascii "t" ++ [233]%N ++ runes_of_ascii """ match")).
+Eval vm_compute in ("<<<M1854>>>" ++ check (runes_of_ascii "root packet A {
+    u8 x `
+        x`,
+}")).
+Eval vm_compute in ("<<<M54>>>" ++ check (runes_of_ascii "options
+{ T= '0' ;A= u8 ;
+    } 	 ")).
+Eval vm_compute in ("<<<M959>>>" ++ check (runes_of_ascii "packet A {
+    u8 x `tab
+	x`,
+}")).
+Eval vm_compute in ("<<<M759>>>" ++ check (runes_of_ascii "= u64 ; u32 MetaData packet {")).
+Eval vm_compute in ("<<<M1867>>>" ++ check (runes_of_ascii "// c x
+    packet A { }
+
+")).
+Eval vm_compute in ("<<<M1105>>>" ++ check (runes_of_ascii "MetaData // c
+tag { }")).
+Eval vm_compute in ("<<<M1131>>>" ++ check (runes_of_ascii "MetaData
+// c
+u { }")).
+Eval vm_compute in ("<<<M1022>>>" ++ check (runes_of_ascii "// c" ++ [8239]%N ++ runes_of_ascii "
+packet A {
+}")).
+Eval vm_compute in ("<<<M1004>>>" ++ check (runes_of_ascii "packet A {
+}// c" ++ [8202]%N)).
+Eval vm_compute in ("<<<M566>>>" ++ check (runes_of_ascii "
+packet
+    asx")).
+Eval vm_compute in ("<<<M1804>>>" ++ check (runes_of_ascii "// " ++ [27880; 37322]%N ++ runes_of_ascii "
+ 
+")).
+Eval vm_compute in ("<<<M765>>>" ++ check (runes_of_ascii "/" ++ [65533; 65533; 65533]%N)).
